@@ -123,8 +123,19 @@ func runC08(scheds []h.Schedule, tr *tracer) {
 	}
 }
 
+// wireID concretises model ids: the boundary values of the uint32 wire field have their own model ids.
+func wireID(id int) uint32 {
+	switch id {
+	case 900:
+		return 0xFFFFFFFF
+	case 901:
+		return 0x80000000
+	}
+	return uint32(id)
+}
+
 func (r *rig) deliverC08(st h.Step) map[string]interface{} {
-	lt, id := st.Int("lt"), st.Int("id")
+	lt, id := st.Int("lt"), wireID(st.Int("id"))
 	name := joinLetters(st.List("name"))
 	var flags uint32
 	if st.Bool("ack") {
@@ -132,6 +143,9 @@ func (r *rig) deliverC08(st h.Step) map[string]interface{} {
 	}
 	if st.Bool("nb") {
 		flags |= quiet.FlagNoBroadcast
+	}
+	for _, b := range st.Ints("xf") { // undefined flag bits
+		flags |= 1 << uint(b)
 	}
 	filters := [][]byte{}
 	pats := []string{}
@@ -142,7 +156,7 @@ func (r *rig) deliverC08(st h.Step) map[string]interface{} {
 			pats = append(pats, p)
 		}
 	}
-	panicked := r.notify(r.queryMsg(lt, id, name, flags, 0, filters))
+	panicked := r.notify(r.queryMsgID(lt, id, name, flags, 0, filters))
 
 	deliv := 0
 	for _, e := range r.events() {
@@ -154,7 +168,7 @@ func (r *rig) deliverC08(st h.Step) map[string]interface{} {
 	for _, w := range r.sent() {
 		var m quiet.MsgQueryResponse
 		if int(w.msg[0]) == quiet.TQueryResponse && quiet.Decode(w.msg, &m) == nil && w.to == "origin" &&
-			m.Flags&quiet.FlagAck != 0 && m.LTime == uint64(lt) && m.ID == uint32(id) && m.From == selfName {
+			m.Flags&quiet.FlagAck != 0 && m.LTime == uint64(lt) && m.ID == id && m.From == selfName {
 			ack++
 		} else if int(w.msg[0]) != quiet.TQuery { // a piggybacked re-broadcast is counted from the queue drain
 			stray++
@@ -163,7 +177,7 @@ func (r *rig) deliverC08(st h.Step) map[string]interface{} {
 	rebro := 0
 	for _, b := range r.n.Drain() {
 		s := quiet.Summarize(b)
-		if s.T == quiet.TQuery && s.LTime == uint64(lt) && s.ID == uint32(id) {
+		if s.T == quiet.TQuery && s.LTime == uint64(lt) && s.ID == id {
 			rebro++
 		} else {
 			stray++
